@@ -127,6 +127,9 @@ def gen_cases(run):
         st = 'mutable' if key.startswith('mutable') else 'fixed'
         cases.append({'key': 'fixed:' + key, 'src': src, 'cfg': None, 'stream': st})
         cases.append({'key': 'fixed:' + key + ':leave', 'src': src, 'cfg': [['any', False]], 'stream': st})
+        if key.startswith(('lazy-nested', 'annotation')):
+            for k, cfg in enumerate(L.INNER_ONLY):
+                cases.append({'key': 'fixed:%s:inner%d' % (key, k), 'src': src, 'cfg': cfg, 'stream': st})
     n_main = 420 if quick else 4200
     n_lazy = 60 if quick else 600
     n_temp = 15 if quick else 100
@@ -149,6 +152,20 @@ def gen_cases(run):
         cases.append({'key': '%s%d' % (stream, i), 'src': src, 'cfg': None, 'stream': stream})
         for _ in range(1 if quick else 2):
             cases.append({'key': '%s%d:rc' % (stream, i), 'src': src, 'cfg': L.random_config(rng), 'stream': stream})
+    # lazy constructs with nested calls in the lazy operand, under configurations naming inner positions only
+    for i in range(50 if quick else 500):
+        src, fs = G.lazy_nested_program(rng)
+        for f in fs:
+            feats[f] += 1
+        for cfg in [None, rng.choice(L.INNER_ONLY), rng.choice(L.INNER_ONLY + [L.random_config(rng)])]:
+            cases.append({'key': 'lazyn%d' % i, 'src': src, 'cfg': cfg, 'stream': 'lazy-nested'})
+    # annotated locals: the annotation is never evaluated
+    for i in range(50 if quick else 500):
+        src, fs = G.annassign_program(rng)
+        for f in fs:
+            feats[f] += 1
+        for cfg in [None, rng.choice(L.INNER_ONLY + [L.random_config(rng)])]:
+            cases.append({'key': 'ann%d' % i, 'src': src, 'cfg': cfg, 'stream': 'annassign'})
     # repeated call-free expressions around a call that mutates what they read (mutable box / list / global)
     for i in range(60 if quick else 600):
         src, fs = G.mutable_program(rng)
